@@ -8,6 +8,8 @@ package main
 
 import (
 	"context"
+	"fmt"
+	"strings"
 	"unicode"
 
 	"github.com/sourcegraph/zoekt"
@@ -106,4 +108,89 @@ func traceCase(w *gen.Writer, sh *shardH, q *QSpec, detail any) {
 	w.Emit(cs)
 }
 
-func runComponents(w *gen.Writer, r *gen.Rand, f gen.Flags) {}
+// runComponents: component correspondences that do not need a shard.
+func runComponents(w *gen.Writer, r *gen.Rand, f gen.Flags) {
+	runBtree(w, r.Fork(), f)
+}
+
+// runBtree: L12. The real b-tree (index.VerifBtree: newBtree/insert/freeze, find, btreeIndex.Get over an in-memory
+// index file) against the Lean model, for small bucket sizes and fan-outs (so that leaf and inner-node splits, exact
+// bucket multiples and the oversized last bucket all occur) and once with the production options.
+func runBtree(w *gen.Writer, r *gen.Rand, f gen.Flags) {
+	n := f.N(400, 6000)
+	for c := 0; c < n; c++ {
+		B := 2 * r.Range(1, 4)
+		v := r.Range(2, 4)
+		h := B / 2
+		var cnt int
+		switch r.Intn(4) {
+		case 0:
+			cnt = r.Intn(3 * B)
+		case 1:
+			cnt = h*r.Range(0, 4*v*v) + r.Range(-1, 1)
+		case 2:
+			cnt = r.Intn(h * v * v * 6)
+		default:
+			cnt = B*r.Range(0, 2*v) + r.Range(-1, 1)
+		}
+		if cnt < 0 {
+			cnt = 0
+		}
+		if c == 0 {
+			B, v, cnt = 1024, 50, 2600 // production options (one leaf split level)
+		}
+		ngs := make([]uint64, 0, cnt)
+		cur := uint64(r.Intn(5))
+		for i := 0; i < cnt; i++ {
+			cur += uint64(1 + r.Intn(4))
+			ngs = append(ngs, cur)
+		}
+		var qs []uint64
+		qs = append(qs, 0, cur+3)
+		step := 1
+		if cnt > 200 {
+			step = cnt / 100
+		}
+		for i := 0; i < cnt; i += step {
+			qs = append(qs, ngs[i])
+			if r.Chance(1, 2) {
+				qs = append(qs, ngs[i]+1)
+			}
+			if r.Chance(1, 4) && ngs[i] > 0 {
+				qs = append(qs, ngs[i]-1)
+			}
+		}
+		shape, finds, gets := index.VerifBtree(B, v, ngs, qs)
+		var fs []string
+		for _, x := range finds {
+			fs = append(fs, fmt.Sprintf("%d:%d", x[0], x[1]))
+		}
+		found := 0
+		for _, g := range gets {
+			if g >= 0 {
+				found++
+			}
+		}
+		in := fmt.Sprintf("btree %d %d %s %s", B, v, gen.NatList(ngs), gen.NatList(qs))
+		impl := fmt.Sprintf("shape=%s find=%s get=%s", strings.ReplaceAll(shape, " ", "_"), strings.Join(fs, ","), intList(gets))
+		class := "btree-leaf-root"
+		if strings.Contains(shape, "[") {
+			class = "btree-inner"
+			if strings.Count(shape, "[") > 1 {
+				class = "btree-inner-multi"
+			}
+		}
+		w.Emit(gen.Case{In: in, Impl: impl, Class: class, Nontrivial: found > 0 && found < len(gets)})
+	}
+}
+
+func intList(xs []int) string {
+	if len(xs) == 0 {
+		return "-"
+	}
+	var ss []string
+	for _, x := range xs {
+		ss = append(ss, fmt.Sprint(x))
+	}
+	return strings.Join(ss, ",")
+}
